@@ -258,8 +258,22 @@ func c19BadDelete(h *vHarness, r *vRand, side *c19Side, key string) {
 }
 
 type c19Ev struct {
-	kind int // 0 resv, 1 pod add, 2 pod same-assignment update
+	kind int // 0 resv, 1 pod add, 2 pod same-assignment update, 3 pod add(unbound, annotated), 4 pod update(unbound -> bound)
 	id   int
+}
+
+// delivery shapes of a surviving pod on the rebuild side (what a restarting / second scheduler can see)
+var c19ShapeNames = []string{"add-bound", "add-unbound-then-update-bound", "add-early-then-object-then-resync"}
+
+// c19RLine: the "r <rid> ..." line of a cache summary ("" = the cache does not know the reservation).
+func c19RLine(sum []string, rid int) string {
+	pre := fmt.Sprintf("r %d ", rid)
+	for _, l := range sum {
+		if strings.HasPrefix(l, pre) {
+			return l
+		}
+	}
+	return ""
 }
 
 func TestVerifC19Rsv(t *testing.T) {
@@ -485,20 +499,61 @@ func TestVerifC19Rsv(t *testing.T) {
 			for _, i := range r.Perm(len(resvs)) {
 				revs = append(revs, c19Ev{0, resvs[i].rid})
 			}
+			// delivery shape per surviving running pod (ordered stream only; the early-pod stream keeps plain adds):
+			//   1: add(unbound, annotated) ... update(old = unbound, new = bound, SAME annotations)
+			//   2: add(bound) BEFORE any Reservation event, the Reservation arrives, a no-change resync update follows
+			shape := map[int]int{}
+			var earlyAdds []c19Ev
+			if !early {
+				for _, pid := range surv {
+					if pods[pid].term {
+						continue
+					}
+					switch r.Intn(5) {
+					case 0:
+						shape[pid] = 1
+					case 1:
+						shape[pid] = 2
+					}
+				}
+			}
+			for _, pid := range surv {
+				h.Tag("shape:" + c19ShapeNames[shape[pid]])
+			}
 			for _, i := range r.Perm(len(surv)) {
-				pevs = append(pevs, c19Ev{1, surv[i]})
+				switch shape[surv[i]] {
+				case 1:
+					pevs = append(pevs, c19Ev{3, surv[i]})
+				case 2:
+					earlyAdds = append(earlyAdds, c19Ev{1, surv[i]})
+					pevs = append(pevs, c19Ev{2, surv[i]}) // the resync
+				default:
+					pevs = append(pevs, c19Ev{1, surv[i]})
+				}
+			}
+			for _, pid := range surv {
+				if shape[pid] == 1 { // the bind update arrives somewhere after the unbound add
+					first := 0
+					for i, ev := range pevs {
+						if ev.id == pid && ev.kind != 0 {
+							first = i
+							break
+						}
+					}
+					at := first + 1 + r.Intn(len(pevs)-first)
+					pevs = append(pevs[:at], append([]c19Ev{{4, pid}}, pevs[at:]...)...)
+				}
 			}
 			// duplicates / same-assignment updates / reservation re-deliveries, inserted at random later places
 			extra := r.Intn(4)
 			for e := 0; e < extra && len(surv) > 0; e++ {
 				pid := surv[r.Intn(len(surv))]
 				kind := 1 + r.Intn(2)
-				// insert after the pod's first add so that it is a duplicate
+				// insert after the pod's first effective delivery so that it is a duplicate
 				first := 0
 				for i, ev := range pevs {
 					if ev.id == pid && ev.kind != 0 {
 						first = i
-						break
 					}
 				}
 				at := first + 1 + r.Intn(len(pevs)-first)
@@ -511,7 +566,7 @@ func TestVerifC19Rsv(t *testing.T) {
 				pevs = append(pevs[:at], append([]c19Ev{{0, o.rid}}, pevs[at:]...)...)
 				h.Tag("inject:resv-redelivery")
 			}
-			evs := append(revs, pevs...)
+			evs := append(append(earlyAdds, revs...), pevs...)
 			if early {
 				p := r.Perm(len(evs))
 				sh := make([]c19Ev, len(evs))
@@ -558,12 +613,43 @@ func TestVerifC19Rsv(t *testing.T) {
 					nw := p.obj.DeepCopy()
 					nw.ResourceVersion = "2"
 					fresh.ph.OnUpdate(p.obj.DeepCopy(), nw)
+				case 3, 4:
+					p := pods[ev.id]
+					unbound := p.obj.DeepCopy()
+					unbound.Spec.NodeName = ""
+					unbound.Status.Phase = corev1.PodPending
+					if ev.kind == 3 {
+						h.Op("rsv ev addu %d", ev.id)
+						fresh.ph.OnAdd(unbound, true)
+					} else {
+						h.Op("rsv ev bind %d", ev.id)
+						nw := p.obj.DeepCopy()
+						nw.ResourceVersion = "2"
+						fresh.ph.OnUpdate(unbound, nw)
+					}
 				}
 			}
 			h.Op("rsv end")
 			sum := c19Summary(fresh.cache)
 			for _, l := range sum {
 				h.Obs("%s", l)
+			}
+			// ORACLE (ii-b): per pod, whatever its delivery shape: the rebuilt cache records it exactly as the live one
+			// (member of AssignedPods of its reservation; that reservation's Allocated and index flags agree)
+			for _, pid := range surv {
+				if shape[pid] == 0 {
+					continue // plain adds: covered by ORACLE (ii) under its own fingerprint
+				}
+				p := pods[pid]
+				_, inLive := live.cache.reservationInfos[c19RUID(p.rid)].AssignedPods[c19PUID(pid)]
+				inFresh := false
+				if ri := fresh.cache.reservationInfos[c19RUID(p.rid)]; ri != nil {
+					_, inFresh = ri.AssignedPods[c19PUID(pid)]
+				}
+				if ll, lf := c19RLine(liveSum, p.rid), c19RLine(sum, p.rid); inLive != inFresh || ll != lf {
+					h.Fail("C19:rsv-rebuilt-differs:"+c19ShapeNames[shape[pid]], "pod %d (reservation %d) delivered as %s: assigned live=%v rebuilt=%v; live %q rebuilt %q",
+						pid, p.rid, c19ShapeNames[shape[pid]], inLive, inFresh, ll, lf)
+				}
 			}
 			// ORACLE (iii): nothing taken before the restart is free after it (independent recomputation)
 			for _, o := range resvs {
@@ -639,7 +725,7 @@ func TestVerifC19Rsv(t *testing.T) {
 	h.Close("1-3 Available reservations on 1-2 nodes (2-3 of cpu/memory/example.com/foo reserved, 1/4 allocate-once); history of 1-10 ops on a live cache " +
 		"(assign via real Plugin.Reserve+PreBind, bound/same-assignment update/delete/terminate pod events, reservation status updates); cut; surviving " +
 		"objects replayed twice into fresh caches in shuffled order with duplicate adds, same-assignment updates and reservation re-deliveries " +
-		"(1/12 of the cases: fully shuffled, pods may precede their reservation). Event shapes: pod deletes go to the registered podEventHandler.OnDelete, 2/5 as " +
+		"(1/12 of the cases: fully shuffled, pods may precede their reservation). Rebuild shapes per surviving running pod in the ordered stream (1/5 each, else plain add): add(unbound,annotated) then update(unbound->bound, same annotations); add before every Reservation event, then the Reservation, then a no-change resync update. Event shapes: pod deletes go to the registered podEventHandler.OnDelete, 2/5 as " +
 		"cache.DeletedFinalStateUnknown{Key,Obj} by value; 1/12 of the steps and 1/8 of the replays add a degenerate delete (tombstone with foreign-type / nil / typed-nil / " +
 		"other-informer Obj, bare foreign object) to both handlers that must change nothing; epilogue: one Reservation delete delivered to twin rebuilt caches as object and as tombstone must agree. " +
 		"Non-trivial: >=2 surviving pods share a reservation.")
